@@ -30,6 +30,8 @@
 (*              (computed independently by the harness) occurs; for        *)
 (*              legLocal: computed from the locally resolved v2 form       *)
 (*       twice  the salted form salted once more occurs                    *)
+(*       where  the places in which the secret was seen: "url", "body",    *)
+(*              "header:<lower-case name>" (leak <=> where is not empty)   *)
 (*   Refuse        no request reached R                                    *)
 (*   SaltResult(r) site "salt": what SaltToken returned                    *)
 (*                                                                         *)
@@ -52,6 +54,20 @@
 (* Refusing to forward is always allowed (the statement speaks about what  *)
 (* is forwarded).  With two tokens in one request only the prohibitions    *)
 (* are kept (which token is used is not specified).                        *)
+(*                                                                         *)
+(* The waiver (ForwardX with a non-empty `waived`, used only by            *)
+(* TokenSaltTraceKF for requests to the legacy site that fall into the     *)
+(* recorded known findings KF-C19-1 / KF-C19-2) waives, for a protected    *)
+(* token (OwnUnsalted, legLocal) of index i in `waived`, exactly this:     *)
+(*   placement "form":   its secret may be seen in "body" and nowhere else *)
+(*                       (clause (c) restricted to the other places), and  *)
+(*                       a lone form token need not appear salted (it is   *)
+(*                       never found, so clauses (a)/(e) "single => salted"*)
+(*                       cannot hold)                                      *)
+(*   placement "cookie": its secret may be seen in "header:cookie" and     *)
+(*                       nowhere else; "single => salted" is NOT waived    *)
+(*   any other placement, any other class: nothing is waived.              *)
+(* ~twice and every clause about the other tokens of the request stay.     *)
 (***************************************************************************)
 EXTENDS Integers, Sequences, FiniteSets
 
@@ -75,13 +91,25 @@ Allowed(c, o, single) ==
 
 CInit(c) == cfg = c /\ done = "no"
 
-\* waived: indices of tokens whose disclosure is a recorded known finding (see TokenSaltTraceKF);
+Range(sq) == {sq[i] : i \in DOMAIN sq}
+Permitted(p) == IF p = "form" THEN {"body"} ELSE IF p = "cookie" THEN {"header:cookie"} ELSE {}
+LeakWithin(p, o) == /\ o.leak => Len(o.where) > 0
+                    /\ Range(o.where) \subseteq Permitted(p)
+
+\* Allowed with the waiver described in the header applied to a token placed at p
+AllowedW(c, p, o, single) ==
+    CASE c \in OwnUnsalted -> LeakWithin(p, o) /\ ~o.twice /\ ((single /\ p # "form") => o.salted)
+      [] c = "legLocal"    -> LeakWithin(p, o) /\ ((single /\ p # "form") => o.salted)
+      [] OTHER             -> Allowed(c, o, single)
+
+\* waived: indices of tokens judged with AllowedW (see TokenSaltTraceKF);
 \* the contract proper is Forward(obs) = ForwardX(obs, {}).
 ForwardX(obs, waived) ==
     /\ done = "no" /\ cfg.site # "salt"
     /\ Len(obs) = Len(cfg.toks)
     /\ \A i \in DOMAIN cfg.toks :
-          IF i \in waived THEN ~obs[i].twice
+          IF i \in waived
+          THEN AllowedW(cfg.toks[i].c, cfg.toks[i].p, obs[i], Len(cfg.toks) = 1)
           ELSE Allowed(cfg.toks[i].c, obs[i], Len(cfg.toks) = 1)
     /\ done' = "fwd"
     /\ UNCHANGED cfg
